@@ -204,7 +204,7 @@ impl G {
           let class = self.rng.gen_range(0..10);
           let name = match class {
             0 => None,
-            1 => Some(name_from(self.next_tx * 7 + 3, 9)),   // below minimum
+            1 => Some(name_from(self.next_tx * 7 + 3, 3)),   // below minimum
             2 => Some(name_from(self.next_tx * 7 + 3, 27)),  // reserved
             3 if !self.names.is_empty() => self.names.choose(&mut self.rng).cloned(), // duplicate
             _ => Some(name_from(self.next_tx * 131 + 17, 13 + self.rng.gen_range(0..3))),
@@ -571,6 +571,41 @@ impl G {
       }
     }
     Some(tx)
+  }
+}
+
+/// C15 fetch path: a signet chain whose first 112,402 blocks are below the first inscription height
+/// (indexed as headers only, so spending their outputs makes ord fetch the values from the node),
+/// followed by ledger-family blocks that spend the last `keep` of those coinbases.
+pub fn signet_fetch(seed: u64, tag: &str, blocks: usize, flags: &[&str]) -> Scenario {
+  let cfg = GenCfg { blocks, max_txs: 4, inscriptions: true, runes: flags.contains(&"runes"), update_every: 3, reopen: false, dup_coinbase: false, junk: false };
+  let mut g = G::new(seed, tag);
+  let n = 112_402usize;
+  let keep = 30usize;
+  let prefix = format!("{tag}k");
+  for i in (n - keep)..n {
+    let label = format!("c{prefix}{i}:0");
+    g.values.insert(label.clone(), SUBSIDY_UNITS);
+    g.utxos.push(Utxo { label, v: SUBSIDY_UNITS, t: "tr".into(), h: i + 1 });
+  }
+  g.height = n;
+  let mut steps = vec![Step::Skip { prefix, n, keep }];
+  for b in 0..blocks {
+    let block = g.next_block(&cfg);
+    steps.push(Step::Block(block));
+    if (b + 1) % 3 == 0 {
+      steps.push(Step::Update);
+    }
+  }
+  steps.push(Step::Update);
+  Scenario {
+    name: format!("{tag}-signet-seed{seed}"),
+    chain: "signet".into(),
+    flags: flags.iter().map(|s| s.to_string()).collect(),
+    commit_interval: None,
+    savepoint_interval: None,
+    max_savepoints: None,
+    steps,
   }
 }
 
